@@ -59,12 +59,24 @@ static inline _Bool op_lt_Bitset_Bitset(Bitset a, Bitset b)
   return a.size < b.size;
 }
 /* FockState(size, value) */
-static inline Bitset Bitset_ctor2(unsigned long size, unsigned long value)
+static inline Bitset Bitset_ctor2_f(unsigned long size, unsigned long value)
 {
   Bitset r; r.size = size;
   __CPROVER_assert(size <= 64, "bitset model: at most 64 bits");
   r.w = size >= 64 ? value : (value & ((1UL << size) - 1UL));
   return r;
 }
+#define Bitset_ctor2(size_, value_) (*(Bitset[1]){ Bitset_ctor2_f((size_), (value_)) })      /* an lvalue: a temporary may be passed by address */
 static inline Bitset Bitset_ctor0(void) { Bitset r = {0UL, 0UL}; return r; }
+/* bitwise operators of two bitsets (boost: "Requires: this->size() == rhs.size()", asserted).  The printer hands class-type operands over
+ * by address and takes the address of the result: the macros yield lvalues. */
+static inline Bitset bitset_binop_f(const Bitset *a, const Bitset *b, int op)
+{
+  __CPROVER_assert(a->size == b->size, "boost::dynamic_bitset operator& | ^: both operands have the same size");
+  Bitset r; r.size = a->size; r.w = op == 0 ? (a->w & b->w) : (op == 1 ? (a->w | b->w) : (a->w ^ b->w));
+  return r;
+}
+#define op_and_Bitset_Bitset(a, b) (*(Bitset[1]){ bitset_binop_f((a), (b), 0) })
+#define op_or_Bitset_Bitset(a, b)  (*(Bitset[1]){ bitset_binop_f((a), (b), 1) })
+#define op_xor_Bitset_Bitset(a, b) (*(Bitset[1]){ bitset_binop_f((a), (b), 2) })
 #endif
